@@ -179,7 +179,7 @@ def _aes(shard, ctx, col, np):
                 if not np.array_equal(np.asarray(ek).reshape(-1), ekr):
                     col.violation('C07/aes/%s.%s/expected-key%s' % (ns, cls, '' if tags == 'default' else '-tags'), 'expected key %s, reference %s' % (np.asarray(ek).tolist(), ekr.tolist()), case)
     # a selection function has no memory: the same data ARRAY OBJECT rewritten in place between calls, then a shorter batch, give the hypotheses of the current contents
-    buf = pool[::8].copy()
+    buf = pool[::8].copy(); held = []
     for step in range(3):
         try:
             out = sf(**{tagname: buf if step < 2 else buf[:3]})
@@ -189,7 +189,13 @@ def _aes(shard, ctx, col, np):
         exp = formula(buf if step < 2 else buf[:3], np.arange(256))
         col.nontrivial += int(exp.size)
         _compare(col, 'C07/aes/%s.%s/history' % (ns, cls), out, exp, {'ns': ns, 'cls': cls, 'history': step}, 'call %d on a data array object rewritten in place between calls' % step)
+        held.append((step, out, np.array(out)))
         buf[...] = (buf[::-1] ^ (0x3c + step)).astype(np.uint8)
+    # the hypotheses handed out by earlier calls belong to the caller: later calls (same shapes, other contents) must not rewrite them
+    for step, out, snap in held:
+        col.evaluations += 1; col.states += 1
+        if not np.array_equal(np.asarray(out), snap):
+            col.violation('C07/aes/%s.%s/earlier-result-rewritten' % (ns, cls), 'the array returned by call %d changed when the selection function was called again' % step, {'ns': ns, 'cls': cls, 'history': step})
     col.sample({'cipher': 'aes', 'ns': ns, 'cls': cls, 'pool': 'byte w of block i = (i(2w+1)+w) mod 256', 'example_block': pool[3].tolist()}, limit=1)
 
 
@@ -308,7 +314,7 @@ def _des(shard, ctx, col, np):
                 if not np.array_equal(np.asarray(ek).reshape(-1), ekr):
                     col.violation('C07/des/%s.%s/expected-key%s' % (ns, cls, '' if tags == 'default' else '-tags'), 'expected key %s, reference %s' % (np.asarray(ek).tolist(), ekr.tolist()), case)
     # a selection function has no memory: the same data ARRAY OBJECT rewritten in place between calls, then a shorter batch, give the hypotheses of the current contents
-    buf = pool[::29].copy()
+    buf = pool[::29].copy(); held = []
     for step in range(3):
         try:
             out = sf(**{tagname: buf if step < 2 else buf[:3]})
@@ -318,5 +324,11 @@ def _des(shard, ctx, col, np):
         exp = formula(buf if step < 2 else buf[:3], np.arange(64))
         col.nontrivial += int(exp.size)
         _compare(col, 'C07/des/%s.%s/history' % (ns, cls), out, exp, {'ns': ns, 'cls': cls, 'history': step}, 'call %d on a data array object rewritten in place between calls' % step)
+        held.append((step, out, np.array(out)))
         buf[...] = (buf[::-1] ^ (0x3c + step)).astype(np.uint8)
+    # the hypotheses handed out by earlier calls belong to the caller: later calls (same shapes, other contents) must not rewrite them
+    for step, out, snap in held:
+        col.evaluations += 1; col.states += 1
+        if not np.array_equal(np.asarray(out), snap):
+            col.violation('C07/des/%s.%s/earlier-result-rewritten' % (ns, cls), 'the array returned by call %d changed when the selection function was called again' % step, {'ns': ns, 'cls': cls, 'history': step})
     col.sample({'cipher': 'des', 'ns': ns, 'cls': cls, 'pool_blocks': int(len(pool)), 'example_block': pool[100].tolist()}, limit=1)
